@@ -62,6 +62,10 @@ def gen_hist(rng, length: int) -> str:
         nested = rng.choice(same + [fid]) if (rng.random() < 0.2) else "-"
         if nested != "-":
             nested_targets.add(nested)
+        elif ret != "-" and rng.random() < 0.2 and any(k != "bad" for k in provs.values()):
+            # the body updates a provider while the call is running (in place for the long-lived dict): the return value is judged under
+            # the mapping the call started with
+            nested = f"set:{rng.choice([p for p, k in provs.items() if k != 'bad'])}={rng.choice(['k:3', 'k:5', 'a:2', 'a:3,k:3', 'n:4,k:3'])}"
         funcs[fid] = {"ps": ps, "ret": ret, "pid": pid}
         return f"D|{fid}|{pid}|{';'.join(f'{n}={h}' for n, h in ps)}|{ret}|{nested}"
 
